@@ -65,7 +65,7 @@ P.update({
 
 P.update({
   'C08': (True, 'Aggregator.tla, Aggregator_Trace.tla, Pipeline.tla, Reload.tla, Boot.tla',
-          'TLC exhausts Aggregator.tla (MetricBuffer / IntervalBuffer / BufferManager and the compute_value LoopingCall on a virtual clock; a value is the id of its datapoint) and proves that every emission covers the values received since the last emission, all values while the interval never expired, re-emission only on new data, the MAX+2 cap and the release of idle series; TLC-simulated behaviours and random streams x tick interleavings run on the real AggregationProcessor / RuleManager / BufferManager (rules file in scratch, buffers.time virtual, every LoopingCall on a task.Clock) and Aggregator_Trace.tla re-synchronises on the observed buffers and judges the observed emissions (values 4^id under sum make the aggregated ids decodable) and the forwarding; generated rules x names are judged by the pattern-language operators of the same module; Pipeline.tla specifies run_pipeline over the processors carbon.service.setupPipeline installs (closed-form delivery / naming / feeding / error accounting checked by TLC against the recursive definition) and judges recorded cases of the real pipeline (real rule files, one processor optionally made to raise, generated datapoints).',
+          'TLC exhausts Aggregator.tla (MetricBuffer / IntervalBuffer / BufferManager and the compute_value LoopingCall on a virtual clock; a value is the id of its datapoint) and proves that every emission covers the values received since the last emission, all values while the interval never expired, re-emission only on new data, the MAX+2 cap and the release of idle series; TLC-simulated behaviours and random streams x tick interleavings run on the real AggregationProcessor / RuleManager / BufferManager (rules file in scratch, buffers.time virtual, every LoopingCall on a task.Clock) and Aggregator_Trace.tla re-synchronises on the observed buffers and judges the observed emissions (values 4^id under sum make the aggregated ids decodable) and the forwarding; generated rules x names are judged by the pattern-language operators of the same module; Pipeline.tla specifies run_pipeline over the processors carbon.service.setupPipeline installs (closed-form delivery / naming / feeding / error accounting checked by TLC against the recursive definition) and judges recorded cases of the real pipeline (real rule files, one processor optionally made to raise, generated datapoints).  Reload.tla (the periodic re-read of the aggregation-rules and rewrite-rules files under rewrites, removal, restore with a preserved modification time and failing ticks) is model-checked and its simulated histories are replayed on the real rule managers.',
           'numeric aggregation methods are compared with exact references outside TLC (value oracle); pattern oracle restricted to whole-segment fields, <<field>>, *, pre*post and plain literals',
           TECH),
 })
